@@ -405,6 +405,8 @@ def c16(year, base, assign, r, asked):
     errs = []
     n = 0
     sol = r.solution
+    if '1040' not in sol:
+        return errs, n
     t24 = _f(sol, '1040', '24')
     net = _f(sol, '1040', '34') - _f(sol, '1040', '37')
     names = [a[0] for a in asked]
@@ -452,7 +454,14 @@ def c16(year, base, assign, r, asked):
             kind = 'expense'
         if kind is None:
             continue
-        for dlt in DELTAS:
+        deltas = list(DELTAS)
+        if kind == 'expense' and name.startswith(('1040_sa.', '1098:')) and sol.get('1040', {}).get('itemizing') == 'False' and '1040_sa' in sol:
+            # the increment that carries the itemized total just across the deduction the return takes instead
+            have = _f(sol, '1040', '12c') if '12c' in sol['1040'] else _f(sol, '1040', '12')
+            gap = _f(sol, '1040', '12a' if '12a' in sol['1040'] else '12') - _f(sol, '1040_sa', '17')
+            if gap > 0:
+                deltas += [round(gap + 1.0, 2), round(gap + 100.0, 2), round(have - _f(sol, '1040_sa', '17') + 1.0, 2)]
+        for dlt in deltas:
             rr, _ = e3.run_return(year, base, assign, bump={name: dlt})
             n += 1
             if rr.exc is not None or not rr.verdict:
